@@ -248,8 +248,10 @@ func lexVariable(l *lexer) error {
 func lexSegment(l *lexer) error {
 	r := l.next()
 	switch {
-	case unicode.IsLetter(r):
-		l.backup() // count the first letter too: a literal may be a single character
+	case isLiteral(r):
+		// Any literal character may come first ("/v1/2fa", "/_ah/health");
+		// count it too: a literal may be a single character.
+		l.backup()
 		return lexLiteral(l)
 	case r == '*':
 		rn := l.next()
